@@ -73,7 +73,16 @@ pub fn gen_control(ctx: &mut Ctx, t: &mut Tape) -> ControlCase {
     let immediate_empty_line = t.flag();
     let one_liner = *t.pick(&[None, Some(20), Some(79), Some(10000)]);
     let nbin = t.range(if matches!(level, CLevel::Binary(_)) { 1 } else { 0 }, 3);
-    let src_pos = t.below(nbin + 1);
+    // now and then a paragraph that is neither a source nor a binary paragraph (no Source, no Package field): the wrapper
+    // reformats it like the others; its place among the others is not prescribed
+    let nkeyless = if level == CLevel::Control && t.chance(1, 5) { t.range(1, 2) } else { 0 };
+    let total = nbin + 1 + nkeyless;
+    let src_pos = t.below(total);
+    let mut keyless_pos: Vec<usize> = vec![];
+    for _ in 0..nkeyless {
+        let free: Vec<usize> = (0..total).filter(|k| *k != src_pos && !keyless_pos.contains(k)).collect();
+        keyless_pos.push(free[t.below(free.len())]);
+    }
     let mut d = Doc { final_newline: !t.chance(1, 6), ..Default::default() };
     let mut rels = HashMap::new();
     let mut uploaders = HashMap::new();
@@ -81,9 +90,20 @@ pub fn gen_control(ctx: &mut Ctx, t: &mut Tape) -> ControlCase {
     let avoid_hash = ctx.avoid(crate::props::c07::KF_HASH_LINE);
     let _ = avoid_hash;
     let mut bin_names = vec!["zeta", "alpha", "libfoo1", "alpha-dev", "foo"];
-    for pi in 0..=nbin {
+    for pi in 0..total {
         let mut p = Para::default();
         let is_src = pi == src_pos;
+        if keyless_pos.contains(&pi) {
+            p.fields.push(mk_field(t, "X-Note", &format!("note {}", pi), false));
+            if t.flag() {
+                p.fields.push(mk_field(t, "X-More", "first\nsecond", true));
+            }
+            d.paras.push(p);
+            if pi + 1 < total {
+                d.gaps.push(vec![GapLine::Empty]);
+            }
+            continue;
+        }
         if is_src {
             p.fields.push(mk_field(t, "Source", "foo", false));
             p.fields.push(mk_field(t, "Maintainer", "Joe Example <joe@example.com>", true));
@@ -131,7 +151,7 @@ pub fn gen_control(ctx: &mut Ctx, t: &mut Tape) -> ControlCase {
             p.trailing_comments.push(doc::gen_comment(t, true));
         }
         d.paras.push(p);
-        if pi < nbin {
+        if pi + 1 < total {
             let mut g = vec![GapLine::Empty];
             if t.chance(1, 5) {
                 g.push(GapLine::Comment(doc::gen_comment(t, true)));
@@ -159,6 +179,7 @@ pub fn labels(ctx: &mut Ctx, c: &ControlCase) {
     ctx.label_if(!c.rels.is_empty(), "control:relation-field");
     let src = c.doc.paras.iter().position(|p| p.fields[0].name == "Source").unwrap_or(0);
     ctx.label_if(src != 0, "control:source-not-first");
+    ctx.label_if(c.doc.paras.iter().any(|p| p.fields[0].name == "X-Note"), "control:paragraph-of-neither-kind");
     ctx.nontrivial = (c.doc.paras.len() >= 2 || c.doc.has_comment()) && (!c.rels.is_empty() || !c.uploaders.is_empty());
 }
 
@@ -173,11 +194,29 @@ pub fn check(c: &ControlCase) -> CheckResult {
     let (out, order): (String, Vec<usize>) = match c.level {
         CLevel::Control => {
             control.wrap_and_sort(c.indent, c.immediate_empty_line, c.one_liner);
-            let mut bins: Vec<usize> = (0..c.doc.paras.len()).filter(|i| *i != src_idx).collect();
+            let mut bins: Vec<usize> = (0..c.doc.paras.len()).filter(|i| c.doc.paras[*i].fields[0].name == "Package").collect();
             bins.sort_by_key(|i| c.doc.paras[*i].fields[0].value());
             let mut order = vec![src_idx];
             order.extend(bins);
-            (control.to_string(), order)
+            let out = control.to_string();
+            if c.doc.paras.iter().any(|p| p.fields[0].name == "X-Note") {
+                // paragraphs of neither kind: identify every output paragraph by its first field; the source and binary
+                // paragraphs must appear in the prescribed order relative to each other, the others anywhere
+                let sc = scan(&out);
+                let mut actual: Vec<usize> = vec![];
+                for sp in &sc.paras {
+                    let first = sp.fields.first().map(|f| (f.name.clone(), f.raw_lines.first().map(|l| tw(l).to_string()).unwrap_or_default()));
+                    match first.and_then(|(n, v)| c.doc.paras.iter().position(|p| p.fields[0].name == n && tw(&p.fields[0].lines[0]) == v)) {
+                        Some(pi) if !actual.contains(&pi) => actual.push(pi),
+                        _ => return fail("paragraph-count", format!("an output paragraph of {:?} is not one of the input paragraphs (or occurs twice)", out)),
+                    }
+                }
+                ensure_eq!(actual.len(), c.doc.paras.len(), "paragraph-count", "paragraphs in {:?}", out);
+                let keyed: Vec<usize> = actual.iter().cloned().filter(|pi| c.doc.paras[*pi].fields[0].name != "X-Note").collect();
+                ensure_eq!(keyed, order, "control-paragraph-order-or-fields", "source first, then binaries by name (paragraphs of neither kind anywhere) in {:?}", out);
+                order = actual;
+            }
+            (out, order)
         }
         CLevel::Source => {
             let mut s = match control.source() {
@@ -188,7 +227,7 @@ pub fn check(c: &ControlCase) -> CheckResult {
             (s.to_string(), vec![src_idx])
         }
         CLevel::Binary(k) => {
-            let bins: Vec<usize> = (0..c.doc.paras.len()).filter(|i| *i != src_idx).collect();
+            let bins: Vec<usize> = (0..c.doc.paras.len()).filter(|i| c.doc.paras[*i].fields[0].name == "Package").collect();
             let k = k % bins.len();
             let mut b = match control.binaries().nth(k) {
                 Some(b) => b,
